@@ -128,6 +128,8 @@ MUTANTS = [
      "        existing_mask = signal.pthread_sigmask(signal.SIG_UNBLOCK, {signal.SIGCHLD})\n", "        existing_mask = signal.pthread_sigmask(signal.SIG_UNBLOCK, set())\n", ["C09"]),
     ("revert-D42-member-names-read-as-tar-options", "cli/archive.py",
      "                \"--\",\n", "", ["C11"]),
+    ("revert-D43-generated-name-not-tested", "cli/archive.py",
+     "        if output_path.exists():\n            # Generated names have a resolution of one second; never\n", "        if False:\n            # Generated names have a resolution of one second; never\n", ["C11"]),
     ("loader-no-dup-check", "parsing/task_index.py",
      "                    if dep_identifier in task_deps_set:\n", "                    if dep_identifier in task_deps_set and len(task_deps) > 2:\n", ["C14"]),
 ]
